@@ -134,8 +134,16 @@ Fixpoint pr_old (top : nat) (e : expr) : list tok :=
   | ETrue => [TTrue] | EFalse => [TFalse] | ENone => [TNone] | EEllipsis => [TEllipsis]
   | EUn o a => let p := prec_un o in wrap (p <? top) (TOp (tok_un o) Tight :: pr_old p a)
   | ENot a => let p := prec_not in wrap (p <? top) (TKw KNot After :: pr_old p a)
-  | EBin o a b => let p := prec_bin o in
-      wrap (p <? top) (pr_old p a ++ [TOp (tok_bin o) Spaced] ++ pr_old p b)
+  | EBin o a b =>
+      let p := prec_bin o in
+      let plain := wrap (p <? top) (pr_old p a ++ [TOp (tok_bin o) Spaced] ++ pr_old p b) in
+      (* the parser stores  [..] * n  /  (..) * n  as the display node with a mult_factor, which
+         emit_sequence lists among the elements (subexpr_nodes()) *)
+      match o, a with
+      | BMul, EList l => TLbrk :: seqt_old top l (pr_old top b) ++ [TRbrk]
+      | BMul, ETuple l => TLpar :: seqt_old top l (pr_old top b) ++ [TRpar]
+      | _, _ => plain
+      end
   | ECmp a o b _ => let p := prec_cmp o in
       wrap (p <? top) (pr_old p a ++ cmp_toks o ++ pr_old p b)
   | EBool o a b => let p := prec_bool o in
@@ -164,6 +172,11 @@ with seq_old (top : nat) (l : exprs) : list tok :=
                   | ENil => pr_old top e
                   | _ => pr_old top e ++ [TComma After] ++ seq_old top l'
                   end
+  end
+with seqt_old (top : nat) (l : exprs) (last : list tok) : list tok :=
+  match l with
+  | ENil => last
+  | ECons e l' => pr_old top e ++ [TComma After] ++ seqt_old top l' last
   end
 with items_old (top : nat) (l : items) : list tok :=
   match l with
